@@ -7,22 +7,23 @@ use crate::harness::ilv::*;
 use crate::harness::kit::*;
 use std::sync::Arc;
 
-/// Map key ids to the command that created them: the i-th `command_sent(Put*)` event created id i
-/// (no scheduling point lies between the id generator and the hook).
-pub fn id_origin(run: &Run) -> Vec<(u64, String, usize)> {
+/// Which kind of command created a key id: the value stored under the id identifies the call that wrote it.
+pub fn id_origin(run: &Run, o: &Obs) -> Vec<(u64, String, usize)> {
     let mut out = Vec::new();
-    let mut next = 1u64;
-    for e in run.events.iter().filter(|e| e.kind == "command_sent") {
-        if e.text == "Put" || e.text == "PutWithTTL" {
-            out.push((next, e.text.clone(), e.task));
-            next += 1;
+    for e in o.store.iter() {
+        if let Some(c) = run.calls.iter().find(|c| c.value == Some(e.1)) {
+            let kind = match &c.op {
+                Op::Put { ttl_ms: Some(_), .. } | Op::Upsert { ttl_ms: Some(_), .. } => "PutWithTTL",
+                _ => "Put",
+            };
+            out.push((e.2, kind.to_string(), c.thread));
         }
     }
     out
 }
 
 pub fn accounting_findings(run: &Run, o: &Obs, when: &str, out: &mut Vec<Finding>) {
-    let origin = id_origin(run);
+    let origin = id_origin(run, o);
     let kind_of = |id: u64| origin.iter().find(|x| x.0 == id).map(|x| x.1.clone()).unwrap_or_else(|| "?".into());
     let sum: i64 = o.weights.iter().map(|w| w.3).sum();
     let mut structural = false;
@@ -43,6 +44,14 @@ pub fn accounting_findings(run: &Run, o: &Obs, when: &str, out: &mut Vec<Finding
                 structural = true;
                 out.push(Finding::new("charged-id-not-held", format!("acct:charged-but-absent:{}", kind_of(*id)), format!("{}: id #{} (key {}, weight {}) stays charged but the store does not hold key {}", when, id, k, w, k)));
             }
+        }
+    }
+    let mut ids: Vec<u64> = o.store.iter().map(|e| e.2).collect();
+    ids.sort();
+    for w in ids.windows(2) {
+        if w[0] == w[1] {
+            structural = true;
+            out.push(Finding::new("duplicate-key-id", "acct:two-keys-one-id", format!("{}: two stored keys share the key id #{}", when, w[0])));
         }
     }
     for (k, _v, id, _e, _d) in o.store.iter() {
@@ -94,6 +103,23 @@ pub fn programs() -> Vec<Program> {
         v.push(p);
     }
     {
+        // different keys: the two commands must get different key ids
+        let mut p = base("put(a)||put_ttl(b)", 10);
+        p.threads = vec![vec![put(1, 2)], vec![put_ttl(2, 3, 5000)]];
+        p.post = vec![Op::Advance { ms: 7000 }, Op::TickWait, get(1)];
+        v.push(p);
+    }
+    {
+        let mut p = base("put_ttl(k)||put_ttl(k)", 10);
+        p.threads = vec![vec![put_ttl(1, 2, 5000)], vec![put_ttl(1, 3, 5000)]];
+        v.push(p);
+    }
+    {
+        let mut p = base("put(k);put_ttl(k)-one-thread", 10);
+        p.threads = vec![vec![put(1, 2), put_ttl(1, 3, 5000)]];
+        v.push(p);
+    }
+    {
         let mut p = base("put(k);put(k)-one-thread", 10);
         p.threads = vec![vec![put(1, 2), put(1, 2)]];
         v.push(p);
@@ -133,13 +159,21 @@ pub fn programs() -> Vec<Program> {
     {
         let mut p = base("{clock;tick}||upsert(k,ttl)", 10);
         p.init = vec![put_ttl(1, 2, 5_000)];
-        p.threads = vec![vec![Op::Advance { ms: 7_000 }, Op::Tick], vec![ups(1, Some(2), Some(50_000))]];
+        p.threads = vec![vec![Op::Advance { ms: 7_000 }, Op::Tick], vec![ups(1, Some(3), Some(50_000))]];
         v.push(p);
     }
     {
         let mut p = base("{clock;tick}||delete(k-with-ttl)", 10);
         p.init = vec![put_ttl(1, 2, 5_000)];
         p.threads = vec![vec![Op::Advance { ms: 7_000 }, Op::Tick], vec![Op::Delete { k: 1 }]];
+        v.push(p);
+    }
+    {
+        // the key is being swept while its weight is updated
+        let mut p = base("{clock;tick}||upsert(k,weight)", 10);
+        p.init = vec![put_ttl(1, 4, 1_000), put(2, 1)];
+        p.threads = vec![vec![Op::Advance { ms: 3_000 }, Op::Tick], vec![ups(1, Some(1), None)]];
+        p.post = vec![get(2)];
         v.push(p);
     }
     {
